@@ -600,17 +600,39 @@ def unicode_zeros() -> list[int]:
 	return _ZEROS
 
 
+# member names that are proper suffixes / prefixes / substrings of each other: a lookup by anything but the exact name finds a sibling
+NAME_FAMILIES = [['A', 'BA', 'CBA', 'AB', 'ABC', 'B', 'CB'], ['X', 'X1', 'X10', 'X0', 'AX', 'X_1', 'XX'], ['B', 'SUB', 'UB', 'U', 'S', 'SU', 'BB'],
+	['M', 'M1', 'M11', 'MM', 'M_', 'xM', 'M1M'], ['N', 'NN', 'N1', 'ON', 'NO', 'ONE', 'N_1']]
+
+
+def member_names(rng: random.Random, n: int) -> list[str]:
+	"""`M0 … Mk` most of the time; otherwise names of one family in a random declaration order (so that a name is a proper suffix / prefix
+	of EARLIER and of later siblings), topped up with `Ni`."""
+	if rng.random() < 0.6:
+		return [f'M{i}' for i in range(n)]
+	fam = list(rng.choice(NAME_FAMILIES))
+	rng.shuffle(fam)
+	names = fam[:n]
+	names += [f'N{i}' for i in range(n - len(names))]  # distinct from every family name
+	rng.shuffle(names)
+	return names
+
+
 def gen_module(rng: random.Random, regions: frozenset[str], max_depth: int, n_enums: int, n_members: int, boost: float = 1.0,
 		homogeneous: bool = False) -> list[list[Member]]:
 	"""`homogeneous`: every enum is all-numeric or all-string (tranp types `Enum.X.value` by the enum's first member)."""
 	g = Gen(rng, regions, max_depth, boost)
+	enum_names = [f'E{ei}' for ei in range(n_enums)]
+	if rng.random() < 0.3:
+		# enum names that are suffixes / prefixes of each other (`E`, `BE`, `CBE`, `E1`), in any declaration order
+		enum_names = rng.sample(['E', 'BE', 'CBE', 'E1', 'E10', 'EB', 'SubE'], n_enums)
 	enums: list[list[Member]] = []
 	for ei in range(n_enums):
-		g.enum = f'E{ei}'
+		g.enum = enum_names[ei]
 		if homogeneous:
 			g.kinds = ['str'] if rng.random() < 0.3 else ['int', 'int', 'float']
 		g.same = []
-		names = [f'M{i}' for i in range(rng.randint(max(2, n_members - 3), n_members))]
+		names = member_names(rng, rng.randint(max(2, n_members - 3), n_members))
 		for i, name in enumerate(names):
 			g.later_names = names[i + 1:]
 			t, v, feats = g.member_expr()
@@ -934,6 +956,18 @@ class Case:
 		self.shape: dict[str, str] = {}  # kind of the member's value node (lone string literal token / signed non-literal / '')
 
 
+def member_value_node(cls: Any, index: int, name: str) -> Any:
+	"""The value node of the `index`-th member declaration of an Enum class, found by POSITION in the class body (the harness does not
+	use `Enum.var_value`, the lookup under test: py2cpp.py:851 and evaluator.py on_relay go through it)."""
+	import rogw.tranp.syntax.node.definition as defs
+	assigns = [st for st in cls.statements if isinstance(st, defs.MoveAssign)]
+	node = assigns[index]
+	got = node.receivers[0].tokens
+	if got != name:
+		raise Unencodable(f'member {index} of {cls.domain_name} is {got!r}, expected {name!r}')
+	return node.value
+
+
 def observe(app: Any, case: Case, rng: random.Random | None = None) -> None:
 	"""Run the real evaluator (ONE instance for the whole module, every member twice: in source order, then shuffled) and CPython
 	on every member; build the `env` line from the real node tree."""
@@ -948,7 +982,7 @@ def observe(app: Any, case: Case, rng: random.Random | None = None) -> None:
 	for ms in case.enums:
 		cls = by_name[ms[0].enum]
 		for m in ms:
-			nodes[m.key] = cls.var_value(m.name)
+			nodes[m.key] = member_value_node(cls, ms.index(m), m.name)
 			case.real[m.key] = real_result(evaluator, nodes[m.key])
 	order = list(case.members)
 	(rng or random.Random(len(case.source))).shuffle(order)
@@ -1585,7 +1619,7 @@ def observe_output(app: Any, case: Case) -> None:
 	nodes: dict[str, Any] = {}
 	ty: dict[str, tuple[str, str, str]] = {}
 	for m, node in zip(case.members, reads):
-		value_node = by_name[m.enum].var_value(m.name)
+		value_node = member_value_node(by_name[m.enum], [x.name for x in case.members if x.enum == m.enum].index(m.name), m.name)
 		nodes[m.key] = value_node
 		start = len(outer.log)
 		try:
